@@ -1131,6 +1131,8 @@ class Exec:
                 v = s.to_int(rval(v))
             elif ck == 'IntegralToBoolean' or ck == 'FloatingToBoolean':
                 v = s.truth(v)
+            elif ck == 'ToVoid':
+                v = None
             elif ck in ('IntegralCast', 'NoOp', 'ConstructorConversion', 'UserDefinedConversion', 'DerivedToBase', 'UncheckedDerivedToBase',
                         'ArrayToPointerDecay', 'FunctionToPointerDecay', 'BuiltinFnToFnPtr', 'NullToPointer', 'FloatingCast', 'BitCast', None):
                 if ck == 'IntegralCast' and isinstance(rval(v), bool):
@@ -1477,6 +1479,11 @@ class Exec:
             return b if s.truth(c) else a
         if name == 'move' or name == 'forward':
             return args[0]
+        if name in ('make_unique', 'make_shared'):
+            m = re.search(r'(?:unique_ptr|shared_ptr|unique_ptr_t)<\s*(?:[\w:]*::)?(\w+)\s*>', n['type'].get('qualType', ''))
+            if not m:
+                raise Unsupported('make_unique of type %s' % n['type'].get('qualType'))
+            return {'__class__': m.group(1)}
         m = s.pick_method(name, len(argn))
         if m is not None and name in s.cb.get('exec_functions', ()):
             return s.call_fn(m, args, s.this)
